@@ -776,6 +776,11 @@ func (a *Agent) updateConnectionState(newState ConnectionState) {
 	if a.connectionState != newState {
 		// Connection has gone to failed, release all gathered candidates
 		if newState == ConnectionStateFailed {
+			// A gathering cycle that is still running must not hand candidates
+			// to the failed agent: Failed is left only through Restart or Close.
+			if a.gatherCandidateCancel != nil {
+				a.gatherCandidateCancel()
+			}
 			a.removeUfragFromMux()
 			a.checklist = make([]*CandidatePair, 0)
 			a.pairsByID = make(map[uint64]*CandidatePair)
